@@ -93,6 +93,18 @@ EXTREME = ["1e400", "6E999", "9" * 320, "1e3", "1.5e2", "0." + "0" * 30 + "1", "
 SEEDS_REC = ["R/2000-01-01T00Z/P1D", "R5/2000-01-01T00Z/2000-01-02T00Z", "R3/P1M/2000-03-31T00Z", "R1/20000101T00Z/PT1H", "R/P1Y/2000"]
 
 
+def classify(case, rej, events):
+    """Recorded finding: a recurrence text whose interval carries a number of seven or more digits makes the TimeRecurrence
+    constructor (called by the parser) walk the calendar a day / a month at a time - effectively for ever.  Only the `hang`
+    clause, only the recurrence parser, only such texts."""
+    import re
+    if case.get("kind") == "fuzz" and case.get("parser") == "rec" and rej["clause"] == "hang":
+        m = re.search(r"P[^/]*", case["text"][1:] if case["text"].startswith("R") else case["text"])
+        if m and re.search(r"\d{7,}", m.group(0)):
+            return "recurrence-text-with-astronomical-interval"
+    return None
+
+
 def extreme(rnd, s):
     """Replace one number by one at the edge of what Python's float()/int() take: exponent forms, overflow to infinity,
     very long digit runs, non-ASCII digits."""
@@ -181,6 +193,9 @@ def expand(job):
             elif choice == "zone" and g["zform"] in ("hhmm", "hh:mm"):
                 g["zm"] = rnd.choice([60, 61, 99, 59]) * (1 if g["zh"] >= 0 else -1)
             yield {"kind": "text", "mode": sp, "g": g, "cfg": dict(c07.rand_cfg(rnd, g), basic=False), "sys": c07.rand_sys(rnd)}
+    elif k == "fixed":
+        # the recorded finding (known_findings.json: recurrence-text-with-astronomical-interval), exercised in every run
+        yield {"kind": "fuzz", "mode": "gregorian", "parser": "rec", "cfg": 0, "text": "R3/P000001000000000000000000000000000000000001M/2000-03-31T00Z"}
     elif k == "fuzz":
         for _ in range(job["n"]):
             which = rnd.choice(["tp", "tp", "dur", "rec"])
@@ -205,6 +220,7 @@ def jobs(tier, seed):
           ("360day", 2004), ("365day", 2004), ("366day", 2003), ("360_day", 2015), ("365_day", 2015), ("366_day", 2020)]
     for sp, y in yt if tier == "quick" else yt + [(m_, y_) for m_ in gen.MODES4 for y_ in (-4, -1, 1, 1999, 2100, 2400, 9999)]:
         out.append({"kind": "table", "mode": sp, "y": y})
+    out.append({"kind": "fixed"})
     n = 1200 if tier == "quick" else 20000
     for j in range(4 if tier == "quick" else 12):
         out.append({"kind": "badtext", "forms": forms, "n": n, "seed": seed * 100 + j})
